@@ -145,11 +145,14 @@ package socket
 //@   requires[own-status] msgOwnStatus(pm)
 //@   modifies pm.serviceMethod, pm.status, pm.body, pm.size, pm.seq, pm.mtype, pm.bodyCodec, fields(pm.meta), allelems(type(utils.argsKV)), fields(pm.xferPipe)
 
+// ghost.framesRead: number of frames the socket has tried to read
+//@ ghost global framesRead int
 //@ func (*socket).ReadMessage
 //@   property C15
 //@   flags libframe frame-unchecked
-//@   modifies msgAll(as(message, type(*message))), lockset, ghost.appendFailed, ghost.maxAlloc
+//@   modifies msgAll(as(message, type(*message))), lockset, ghost.appendFailed, ghost.maxAlloc, ghost.framesRead
 //@   requires msgOwnStatus(as(message, type(*message)))
+//@   ghostset ghost.framesRead = old(ghost.framesRead) + 1
 
 // ---- C06: the size check dominates every allocation ---------------------------
 // ghost.maxAlloc = the largest buffer length requested (make) so far
